@@ -15,6 +15,7 @@ import DymVerif.Gen.Guards
                                      -> the `tx` observations | rej noteth | rej unknown-ext
                                         (M-Ante `runAnte` over the regenerated route table; r = ReCheckTx)
   wrappers                           -> sorted Go types of the wrappers that execute packed messages
+  rows                               -> number of Msg rows of the regenerated guard table (= routed custom-module message types)
   signer <module.Msg>                -> Go field path of the message's signer (regenerated table)
   own <obj> <actor>                  -> ok          (fixture: object `obj` is owned by actor)
   fix <what> [a<i>]                  -> ok          (fixture maintenance; `fix buy a<i>`: new buy order of actor i = object 5)
@@ -115,6 +116,7 @@ def step (s : St) (f : List String) : St × String :=
     let names := realWrappers.filterMap (fun w =>
       if w.2 = Acc.msgs then (Gen.Ante.typeNames.lookup w.1) else none)
     (s, ",".intercalate (names.mergeSort (fun a b => decide (a ≤ b))))
+  | ["rows"] => (s, toString (Gen.Guards.entries.filter (·.isMsg)).length)
   | ["signer", m] => (s, (Gen.Guards.signers.lookup m).getD "?")
   | ["own", o, a] => ({ s with owners := setOwner s.owners (nat! o) (nat! (a.drop 1).toString) }, "ok")
   | ["fix", "buy", a] => ({ s with owners := setOwner s.owners 5 (nat! (a.drop 1).toString) }, "ok")
